@@ -1,8 +1,96 @@
 """C07 (first sentence only) -- splitting a command-line string inverts quoting.  Bounded, harness mode."""
-from . import core, as2a
-from .core import Job
+import os
+import re
 
-Unit = as2a.Unit
+from . import core, as2a
+from .core import Job, Undecided
+
+
+HARNESS_RM = r'''// generated: read-mode slice of Handler (second half of C07, the override mechanism only).  Sliced mechanically each run:
+// enum ReadMode (handler.hpp), class template ScopedFlag (scoped_value.hpp), the first argument of every ->assignValue( ...) call and the
+// flag of every `ScopedFlag< uint8_t> sf( mReadMode, ...)` statement of handler.cpp.
+#include <cstdint>
+#include <cassert>
+#define CANARY __CPROVER_assert(0, "CV_CANARY")
+namespace celma { namespace common {
+@SCOPEDFLAG@
+} }
+namespace celma {
+struct CV_Handler {
+@ENUM@
+   uint8_t mReadMode;
+@SITES@
+};
+}
+using celma::CV_Handler;
+// representation invariant of the read mode: a set of the two source bits (initially 0, modified by ScopedFlag only)
+#define INV_RM(h) ((h).mReadMode <= (CV_Handler::file | CV_Handler::envVar))
+extern "C" {
+void h_rm_sites() {
+  CV_Handler h; __CPROVER_assume(INV_RM(h));
+  __CPROVER_assert(CV_Handler::commandLine == 0 && CV_Handler::file != 0 && CV_Handler::envVar != 0 && (CV_Handler::file & CV_Handler::envVar) == 0
+                   && CV_Handler::file <= 255 && CV_Handler::envVar <= 255, "read modes: command line is the empty set, file and environment variable are distinct bits");
+@SITE_ASSERTS@
+  CANARY; }
+void h_rm_scope() {
+  CV_Handler h; __CPROVER_assume(INV_RM(h)); const uint8_t v = h.mReadMode; unsigned char cvin_which, cvin_inner;
+  const int flags[@NFLAGS@] = { @FLAGS@ }; const bool guarded[@NFLAGS@] = { @GUARDED@ };
+  __CPROVER_assume(cvin_which < @NFLAGS@ && cvin_inner < @NFLAGS@);
+  const int f = flags[cvin_which], g = flags[cvin_inner];
+  if (guarded[cvin_which]) __CPROVER_assume((v & f) == 0);      // the assert( (mReadMode & flag) == 0) in front of the statement
+  {
+    const celma::common::ScopedFlag< uint8_t> sf( h.mReadMode, f);
+    __CPROVER_assert(h.mReadMode == (v | f), "while a source is read its bit is set and the other bits are unchanged");
+    __CPROVER_assert(h.mReadMode != CV_Handler::commandLine, "while a file / the environment variable is read the mode is not 'command line'");
+    if (g != f && (!guarded[cvin_inner] || (h.mReadMode & g) == 0)) {
+      const celma::common::ScopedFlag< uint8_t> sf2( h.mReadMode, g);     // an argument file named inside the environment variable
+      __CPROVER_assert(h.mReadMode == (v | f | g), "nested source: both bits set");
+    }
+    __CPROVER_assert(h.mReadMode == (v | f), "leaving the nested source restores the outer mode");
+  }
+  __CPROVER_assert(h.mReadMode == v && INV_RM(h), "after the source has been read the previous read mode is restored");
+  CANARY; }
+}
+'''
+
+
+class Unit(as2a.Unit):
+    """ArgString2Array unit + the read-mode slice of Handler."""
+    def __init__(self, scratch):
+        super().__init__(scratch)
+        def rd(rel):
+            try:
+                return open(os.path.join(core.SRC, rel)).read()
+            except OSError as e:
+                raise Undecided('extraction: cannot read %s: %s' % (rel, e))
+        hpp, cpp, sv = rd('celma/prog_args/handler.hpp'), rd('library/prog_args/handler.cpp'), rd('celma/common/scoped_value.hpp')
+        m_enum = re.search(r'^   enum ReadMode : uint8_t\n   \{\n.*?\n   \};\n', hpp, flags=re.M | re.S)
+        m_sf = re.search(r'^template< typename S> class ScopedFlag\n\{\n.*?\n\}; // ScopedFlag< S>\n', sv, flags=re.M | re.S)
+        sites = re.findall(r'->assignValue\(\s*((?:[^,()]|\([^()]*\))+),', cpp)
+        flags = re.findall(r'ScopedFlag< uint8_t>\s+\w+\( mReadMode, (ReadMode::\w+)\);', cpp)
+        guards = re.findall(r'assert\( \(mReadMode & (ReadMode::\w+)\) == 0\);', cpp)
+        if not m_enum or not m_sf or len(sites) < 2 or len(flags) < 2 or len(re.findall(r'\bmReadMode\b', cpp)) != 4 + len(sites):
+            raise Undecided('slice rule (read mode): enum %s, ScopedFlag %s, %d assignValue sites (>= 2 expected), %d ScopedFlag statements (>= 2 expected), '
+                            'or mReadMode is used elsewhere in handler.cpp' % (bool(m_enum), bool(m_sf), len(sites), len(flags)))
+        sf_text, n_del = re.subn(r'^[^\n]*= delete;\n', '', m_sf.group(0), flags=re.M)      # R-DELETE
+        # R-ENUMQUAL: `ReadMode::x` names the enumerator x of the unscoped enum; the front end does not resolve the qualified form
+        self.rm_sites = [re.sub(r'\bReadMode::(\w+)', r'\1', x.strip()) for x in sites]
+        self.rm_flags = flags
+        t = HARNESS_RM.replace('@SCOPEDFLAG@', sf_text).replace('@ENUM@', m_enum.group(0))
+        t = t.replace('@SITES@', '\n'.join('   bool site_%d() const { return (%s); }' % (k, e) for k, e in enumerate(self.rm_sites)))
+        t = t.replace('@SITE_ASSERTS@', '\n'.join('  __CPROVER_assert(h.site_%d() == (h.mReadMode != CV_Handler::commandLine), "assignValue call site %d: cardinality is ignored exactly while the words come from a file or the environment variable");' % (k, k)
+                                                  for k in range(len(self.rm_sites))))
+        t = t.replace('@NFLAGS@', str(len(flags))).replace('@FLAGS@', ', '.join('CV_Handler::' + f.split('::')[1] for f in flags))
+        t = t.replace('@GUARDED@', ', '.join('true' if f in guards else 'false' for f in flags))
+        self.rm_path = scratch.write('gen/h_c07_readmode.cpp', t)
+        self.rm_report = {'assignValue_first_arguments': self.rm_sites, 'ScopedFlag_flags': flags, 'guarding_asserts': guards, 'R-DELETE lines dropped from ScopedFlag': n_del}
+
+
+def make_build_rm(unit, h):
+    def build(job, wd):
+        core.goto_cc(['-nostdinc', '-I', core.STUBS, unit.rm_path, '--function', h, '-o', 'h.gb'], wd, 'read-mode slice TU')
+        return os.path.join(wd, 'h.gb')
+    return build
 
 
 def jobs(unit, tier, only=None):
@@ -18,12 +106,21 @@ def jobs(unit, tier, only=None):
                        backend='sat', unwind=cap + 3, timeout=600 if tier == 'quick' else 3000, mode='harness', object_bits=10,
                        instance={'words': words, 'word_length': wlen, 'quoting_modes': qm, 'line_capacity': cap},
                        bounded='<= %d words of <= %d arbitrary non-NUL bytes' % (words, wlen), extra_flags=['--drop-unused-functions']))
+    out.append(Job('c07_readmode_sites', 'Handler: every assignValue( ignore_cardinality, ...) call site (sliced argument expression)',
+                   'call-site contract: ignore_cardinality == (read mode != command line), for every read mode (harness, loop-free, full domain)',
+                   make_build_rm(unit, 'h_rm_sites'), backend='sat', timeout=120, mode='harness', instance={'sites': unit.rm_sites}))
+    out.append(Job('c07_readmode_scope', 'common::ScopedFlag< uint8_t> on Handler::mReadMode (readArgumentFile / checkReadEnvVarArgs)',
+                   'constructor sets exactly the source bit, destructor restores the previous mode, also when nested (harness, loop-free, full domain)',
+                   make_build_rm(unit, 'h_rm_scope'), backend='sat', timeout=120, mode='harness', instance={'flags': unit.rm_flags}))
     if only:
         out = [j for j in out if only in j.name]
     return out
 
 
 def replay(unit, job, o, inputs, scratch):
+    if 'readmode' in job.name:
+        return {'outcome': 'unavailable', 'detail': 'no native replay for the read-mode slice: the obligation is a call-site contract over all four read modes; '
+                'the counterexample names the read mode (mReadMode) for which the sliced expression differs'}
     W, L = job.instance['words'], job.instance['word_length']
 
     def gi(k, d=0):
@@ -45,12 +142,16 @@ def replay_record(rec, scratch):
 
 def evidence_info(unit, tier):
     return {
-        'explanation': 'BOUNDED, first sentence of C07 only: for every list of <= WORDS words of 1..WLEN arbitrary non-NUL bytes, every quoting style '
+        'explanation': 'Read-mode slice (loop-free, all read modes): the first argument of every Handler call of assignValue() equals '
+                       '(read mode != command line), and common::ScopedFlag on mReadMode sets exactly the source bit and restores the previous mode, also nested '
+                       '(sliced each run: ' + str(unit.rm_report) + '). BOUNDED, first sentence of C07: for every list of <= WORDS words of 1..WLEN arbitrary non-NUL bytes, every quoting style '
                        '(escaped as the property states, whole word in single or double quotes, every character in its own style: bare, backslash, '
                        'quoted c), 1..2 separating blanks and optional leading/trailing blanks, the real splitString returns exactly the words. '
-                       'The second half of C07 (argument file / environment variable / override by the command line) runs through the whole handler '
-                       '(std::ifstream, getenv) and is not applicable to this technique.',
+                       'That words from an argument file / the environment variable give the same destination values as argv words runs through the whole handler '
+                       '(std::ifstream, getenv, TypedArg) and is not decided.',
         'trusted_base': ['CBMC 6.11 C++ front end on the shadow unit', 'stand-in <string> (inline flavour, capacity-bounded), <vector>', 'MiniSat'],
-        'assumptions': ['bounded word count and word length (see instances)', 'file/environment half of the property not decided', 'termination not proved'],
-        'not_under_contract': list(unit.shadow.dropped) + ['Handler::readArgumentFile / checkReadEnvVarArgs (second half of C07)'],
+        'assumptions': ['bounded word count and word length (see instances)', 'file/environment half of the property: only the read-mode call-site contracts are decided; '
+                        'TypedArgBase::assignValue honouring ignore_cardinality is assumed; equality of destination values across sources is not decided', 'termination not proved',
+                        'read mode: invariant mReadMode is a subset of {file, envVar} (initially 0 by the default member initialiser, modified by ScopedFlag only - checked: no other use of mReadMode in handler.cpp)'],
+        'not_under_contract': list(unit.shadow.dropped) + ['Handler::readArgumentFile / checkReadEnvVarArgs apart from their ScopedFlag statements', 'TypedArgBase::assignValue'],
     }
